@@ -28,13 +28,16 @@ type World struct {
 	Specs         map[string]*SpecFunc
 	ContractFiles []string
 	LoadSeconds   float64
+	modsetsDone   bool
 	NonNilGlobals map[*ssa.Global]bool
 	TypeInvs      map[string][]*Clause // receiver type key, e.g. (*frame.codec)
 }
 
 type fnInfo struct {
 	hasLoop bool
-	rejects bool
+	rejects bool // uses constructs outside the subset
+	soft    bool // ... but only go statements / make(chan), which the abstract-concurrency mode tolerates
+	hard    bool
 	size    int
 }
 
@@ -106,17 +109,23 @@ func (w *World) fnInfo(fn *ssa.Function) *fnInfo {
 		}
 		for _, in := range b.Instrs {
 			switch x := in.(type) {
-			case *ssa.Go, *ssa.Select, *ssa.Send, *ssa.MakeChan:
+			case *ssa.Go, *ssa.MakeChan:
 				i.rejects = true
+				i.soft = true
+			case *ssa.Select, *ssa.Send:
+				i.rejects = true
+				i.hard = true
 			case *ssa.Defer:
 				if !isMutexCall(&x.Call) {
 					i.rejects = true
+					i.hard = true
 				}
 			}
 		}
 	}
 	if fn.Recover != nil {
 		i.rejects = true
+		i.hard = true
 	}
 	w.infos[fn] = i
 	return i
@@ -191,6 +200,9 @@ func (w *World) modSet(fn *ssa.Function) *modSet {
 }
 
 func (w *World) modSetLocked(fn *ssa.Function, active map[*ssa.Function]bool) *modSet {
+	if !w.modsetsDone && len(active) == 0 {
+		w.computeAllModSets()
+	}
 	if m, ok := w.modsets[fn]; ok {
 		return m
 	}
@@ -412,4 +424,118 @@ func (w *World) invokeModSetByName(t types.Type, name string) *modSet {
 		}
 	}
 	return &modSet{fams: map[string]bool{}}
+}
+
+// computeAllModSets computes the static mod-set of every repository function by a global fixpoint over the call
+// graph (static callees, implementers of invoked repository interfaces, signature-compatible functions for dynamic
+// calls), so that later queries are table look-ups.
+func (w *World) computeAllModSets() {
+	w.modsetsDone = true
+	type node struct {
+		local   *modSet
+		callees []*ssa.Function
+	}
+	nodes := map[*ssa.Function]*node{}
+	var fns []*ssa.Function
+	for _, fn := range w.Funcs {
+		if fn.Blocks != nil {
+			fns = append(fns, fn)
+		}
+	}
+	bySig := func(sig *types.Signature) []*ssa.Function {
+		var out []*ssa.Function
+		for _, fn := range fns {
+			if fn.Signature.Recv() == nil && types.Identical(fn.Signature, sig) {
+				out = append(out, fn)
+			}
+		}
+		return out
+	}
+	for _, fn := range fns {
+		n := &node{local: &modSet{fams: map[string]bool{}}}
+		nodes[fn] = n
+		for _, b := range fn.Blocks {
+			for _, in := range b.Instrs {
+				var cc *ssa.CallCommon
+				switch x := in.(type) {
+				case *ssa.Store:
+					if fam, ok := storeFamily(x.Addr, false); ok {
+						n.local.fams[fam] = true
+					}
+				case *ssa.MapUpdate:
+					n.local.fams[mapFam(x.Map.Type())] = true
+				case *ssa.Call:
+					cc = &x.Call
+				case *ssa.Defer:
+					cc = &x.Call
+				case *ssa.Go:
+					n.local.all = true
+				}
+				if cc == nil {
+					continue
+				}
+				if b, ok := cc.Value.(*ssa.Builtin); ok {
+					switch b.Name() {
+					case "append", "copy":
+						n.local.fams[elemFam(types.Unalias(cc.Args[0].Type()).Underlying().(*types.Slice).Elem())] = true
+					case "delete":
+						n.local.fams[mapFam(cc.Args[0].Type())] = true
+					}
+					continue
+				}
+				if cc.IsInvoke() {
+					n.local.fams["G<stream>"] = true
+					if !externalIface(cc.Value.Type()) {
+						it := types.Unalias(cc.Value.Type()).Underlying().(*types.Interface)
+						for _, impl := range w.implementers(it) {
+							if f2 := w.Prog.LookupMethod(impl, cc.Method.Pkg(), cc.Method.Name()); f2 != nil {
+								n.callees = append(n.callees, f2)
+							}
+						}
+					}
+					continue
+				}
+				if callee := cc.StaticCallee(); callee != nil {
+					if inRepo(callee) && callee.Blocks != nil {
+						n.callees = append(n.callees, callee)
+						continue
+					}
+					n.local.fams["G<stream>"] = true
+					for _, a := range cc.Args {
+						w.argMod(a.Type(), n.local)
+						if mi, ok := a.(*ssa.MakeInterface); ok {
+							w.argMod(mi.X.Type(), n.local)
+						}
+					}
+					continue
+				}
+				if mc, ok := cc.Value.(*ssa.MakeClosure); ok {
+					n.callees = append(n.callees, mc.Fn.(*ssa.Function))
+					continue
+				}
+				n.local.fams["G<stream>"] = true
+				n.callees = append(n.callees, bySig(cc.Signature())...)
+			}
+		}
+	}
+	for fn, n := range nodes {
+		m := &modSet{fams: map[string]bool{}}
+		m.add(n.local)
+		w.modsets[fn] = m
+	}
+	for changed := true; changed; {
+		changed = false
+		for fn, n := range nodes {
+			m := w.modsets[fn]
+			before, wasAll := len(m.fams), m.all
+			for _, cal := range n.callees {
+				if cm, ok := w.modsets[cal]; ok {
+					m.add(cm)
+				}
+			}
+			if len(m.fams) != before || m.all != wasAll {
+				changed = true
+			}
+		}
+	}
 }
